@@ -20,28 +20,28 @@ CHECKS.update({
          "Exploration: each delivery's own operations are classified; any lock/wait/alloc or unbounded loop is a violation."),
  "C04": ("vsched-fork","same generator with real pre-existing dispositions and generated sa_flags installed via sigaction (simulated kernel models SA_SIGINFO / SA_RESETHAND); foreign-handler call log (once, first, same arguments); real-signal anchors with queued payloads and a suspend/continue cycle","§5 C04",
          "Exploration over arrival instants relative to first registrations, including the take-over window."),
- "C18": ("vsched-fork","same generator with panicking mutators + fair completion (no deadlock / step bound) + directed sustained-overlap schedules (32 rounds, parameters generated)","§5 C18",
+ "C18": ("vsched-fork","same generator with panicking mutators + fair completion (no deadlock / step bound) + directed sustained-overlap schedules (32 rounds, parameters generated); real-thread probes: refused registrations with re-entrant captures, first registry use in a forked child under in-flight deliveries","§5 C18",
          "Exploration; liveness decided through finite surrogates (fair completion under a step bound, K-round periodic witness)."),
 })
 FP_NOTE = "trusts: the kernel of this sandbox as ground truth for signal delivery; one forked child per case starting from a normalised disposition table; proptest generators seeded from VERIF_SEED"
 CHECKS.update({
- "C05": ("forkprobe","model-based: generated register/unregister/unregister_signal/deliver histories with real raise vs a per-signal ordered-list reference model; dispositions probed after every step","§5 C05",
+ "C05": ("forkprobe","model-based: generated register/unregister/unregister_signal/deliver histories with real raise vs a per-signal ordered-list reference model; dispositions probed after every step; long-run soak (260 000 operations in one process, ids beyond 16 bits, 700 live actions) against an in-process model","§5 C05",
          "Exploration against a reference model over generated histories of up to 200 operations on up to 20 signals."),
- "C12": ("forkprobe","model-based: generated new/add_signal/clone/drop histories over the full integer range x 3 exfiltrators; every watched signal probed by real raise after every step","§5 C12",
+ "C12": ("forkprobe","model-based: generated new/add_signal/clone/drop histories over the full integer range x 3 exfiltrators; every watched signal probed by real raise after every step; real-thread stress dropping the last owners concurrently","§5 C12",
          "Exploration against an instance model; process death and panicking drops are observations."),
  "C13": ("forkprobe","generated descriptor kind x fill level x burst lengths x rejected registrations x shared pipe x hung-up reader x descriptor-number reuse probe; byte-count oracle with measured capacity and write/send attempts counted by symbol interposition; iterator teardown scenarios under the executor","§5 C13",
          "Exploration with real deliveries into real pipes and sockets, including completely full ones."),
- "C14": ("forkprobe","entry point x signal number table (enumerated) x generated prefixes; independent expectation table, dispositions/Arc counts/descriptors compared before and after","§5 C14",
+ "C14": ("forkprobe","entry point (Handle::add_signal also on closed / outlived instances) x signal number table (enumerated) x generated prefixes; independent expectation table, dispositions/Arc counts/descriptors compared before and after","§5 C14",
          "Exploration; the entry x boundary-number table is enumerated completely on every run (thorough: the whole [-2,130] range)."),
  "C15": ("forkprobe","model-based: generated flag/shutdown/spy/re-raise/store/deliver histories (helper threads, third-party SA_NODEFER handlers first); exact wait status, flag values and in-handler spy records vs the model; real-thread ordering stress with a self-tuned arming instant","§5 C15",
          "Exploration against a model that replays each delivery's actions in registration order."),
- "C16": ("forkprobe","differential: emulate_default_handler vs the kernel's own default action in paired probes (fresh non-orphaned process group), signal x 7 contexts (incl. second thread, registry busy with the signal) enumerated + generated extras; names vs C headers","§5 C16",
+ "C16": ("forkprobe","differential: emulate_default_handler vs the kernel's own default action in paired probes (fresh non-orphaned process group), signal x 8 contexts (incl. second thread, registry busy with the signal, two stops in a row) enumerated on two builds of the library (with and without debug assertions / overflow checks) + generated extras; names vs C headers","§5 C16",
          "Exploration / differential testing with the kernel as oracle; the signal x context table is enumerated completely on every run."),
  "C17": ("forkprobe","differential: Origin::extract vs an independent decoder on generated siginfo images; real deliveries by 12 mechanisms vs getpid/getuid/child pid","§5 C17",
          "Exploration over synthetic records (tens of thousands per run) plus every sending mechanism for real."),
 })
 CHECKS.update({
- "C09": ("vsched-fork","generated consumer mode x exfiltrator x deliveries/add_signal x nested deliveries x byte schedule with a quiescence observer; every finished delivery of a watched signal must be reported before the system comes to rest","§5 C09",
+ "C09": ("vsched-fork","generated consumer mode x exfiltrator x deliveries/add_signal x nested deliveries x byte schedule with a quiescence observer; every finished delivery of a watched signal must be reported before the system comes to rest; async-style consumers over stream / datagram / seqpacket self-pipes; real-signal bursts on the consumer's own thread","§5 C09",
          "Exploration over interleavings of deliveries with the consumer's read/drain/scan steps on a real socketpair; lost wake-ups show as unreported signals at quiescence."),
  "C10": ("vsched-fork","same scenarios; per-yield counting invariant, watched-set membership, record-to-delivery matching by unique sender id, per-signal order","§5 C10",
          "Exploration with an invariant checked at every yield of the recorded history."),
@@ -66,7 +66,7 @@ for pid,(eng,tech,ref,text) in CHECKS.items():
 na=[{"property_id":p,"reason":"check not built yet in this session (planned, see DESIGN.md §5); not claimed until it is silent and sensitive"} for p in ALL if p not in CHECKS]
 m={
  "version":1,
- "setup_cmd":"cd /verif/harness && CARGO_NET_OFFLINE=true cargo build --release --offline",
+ "setup_cmd":"cd /verif/harness && CARGO_NET_OFFLINE=true cargo build --release --offline && CARGO_NET_OFFLINE=true cargo build --profile plain --offline",
  "hooks":{"guard":"sighook_verif","enable":"RUSTFLAGS=\"--cfg sighook_verif\" (set in /verif/harness/.cargo/config.toml)","baseline_off_cmd":"cd /repo && cargo test --workspace --no-fail-fast --offline","source_commits":hook_ids,"add_only":True},
  "engines":[
    {"name":"vsched-fork","path":"/verif/harness/src/reg.rs","serves_properties":["C01","C02","C03","C04","C09","C10","C11","C18"],"kind_free_text":"the same executor, one forked child per case; deliveries are direct calls of the library's real dispatcher placed by the schedule (own thread or nested on the interrupted thread); real sigaction dispositions"},
